@@ -856,7 +856,7 @@ func (tm *Terms) index(fr *Frame, v ssa.Value, base, idx ssa.Value) *Term {
 	if c, ok := idx.(*ssa.Const); ok {
 		return elemOf(b, constKey(c), v)
 	}
-	return mk("elem", "", v, b)
+	return mk("elem", "", v, b, tm.Of(fr, idx))
 }
 
 // elemOf projects a constant index out of a literal slice/array term.
